@@ -242,6 +242,9 @@ func (g *pgen) strLit() string {
 	if g.r.Chance(4) {
 		w += `\t`
 	}
+	if g.r.Chance(3) {
+		return `"` + w + `\n"` // the value ends in a line feed
+	}
 	if g.r.Chance(5) {
 		// every escape the lexer accepts: the emitted text then holds the control character itself
 		w += g.r.Pick([]string{`\r\n`, `\r`, `\r\nnext`, `a\rb`, `\a`, `\v\f`, `\b`, `\\`, `\"q\"`, `\r\n\r\n`})
@@ -1081,6 +1084,20 @@ func GenProgram(r *Rng, f Feat, imports []ModuleRef, tag string) (string, []Func
 				g.line("%s := %s", strings.Join(names, ", "), g.callExpr(fn, env, 1))
 			}
 			break
+		}
+	}
+	if !f.PublicFuncs && r.Chance(6) {
+		// the way the program ENDS: a program call whose last argument ends in a line feed, a
+		// comment without a final line feed, blank lines, a statement without a final line feed
+		switch r.Intn(4) {
+		case 0:
+			g.line("@echo(\"bye\\n\")")
+		case 1:
+			g.sb.WriteString("// the end")
+		case 2:
+			g.sb.WriteString("\n\n\n")
+		default:
+			g.sb.WriteString("print(0)")
 		}
 	}
 	return g.sb.String(), public
